@@ -539,9 +539,14 @@ func PathCountFrom(from *ssa.BasicBlock, after ssa.Instruction, weight func(ssa.
 
 // PathCountIter is PathCountFrom without the loop penalty: it counts matches along
 // one traversal (used for "exactly once per loop iteration": start inside the body;
-// the traversal leaves through the loop exit to a return, re-entering no block).
+// the traversal ends when it comes back to the starting block or leaves through the loop exit to a return).
 func PathCountIter(from *ssa.BasicBlock, after ssa.Instruction, weight func(ssa.Instruction) int, skip func(*ssa.BasicBlock) bool) (min, max int) {
 	return pathCount(from, after, weight, skip, false)
+}
+
+// PathCountIterEdges is PathCountIter with individual edges declared non-existent.
+func PathCountIterEdges(from *ssa.BasicBlock, after ssa.Instruction, weight func(ssa.Instruction) int, skipEdge func(from, to *ssa.BasicBlock) bool) (min, max int) {
+	return pathCountE(from, after, weight, nil, skipEdge, false)
 }
 
 // PathCountEdges is PathCountFrom where, in addition to blocks, individual CFG edges can be declared
@@ -588,7 +593,20 @@ func pathCountE(from *ssa.BasicBlock, after ssa.Instruction, weight func(ssa.Ins
 			res = &mm{w, w}
 		} else {
 			for _, s := range b.Succs {
-				if onStack[s] || (skip != nil && skip(s)) || (skipEdge != nil && skipEdge(b, s)) {
+				if (skip != nil && skip(s)) || (skipEdge != nil && skipEdge(b, s)) {
+					continue
+				}
+				if !loopPenalty && s == from && onStack[s] {
+					// per-iteration counting: coming back to the block we started in ends the iteration
+					if res.min < 0 || w < res.min {
+						res.min = w
+					}
+					if w > res.max {
+						res.max = w
+					}
+					continue
+				}
+				if onStack[s] {
 					continue
 				}
 				r := visit(s, 0)
